@@ -130,8 +130,11 @@ def run_instance(inst):
             _, m, cls, g, o, s, c, i, e = op
             res, model = run_one(fp, cls, pool, (g, o, s, c, i, e))
             slots[m] = (model, res)
-            # the same construction in a fresh, isolated history (fresh copies of the argument values)
-            ref, _ = run_one(fp, cls, make_pool(), (g, o, s, c, i, e))
+            # the same construction in a fresh, isolated history: fresh copies of the argument values in a FRESH PROCESS
+            # (computed once per distinct construction before the histories run, see main)
+            ref = _REFS.get(json.dumps([cls, g, o, s, c, i, e]))
+            if ref is None:
+                ref, _ = run_one(fp, cls, make_pool(), (g, o, s, c, i, e))
             ev["res"], ev["ref"] = res, ref
             ev["cls"] = CLASSES[cls - 1][0]
             ev["args"] = [g, o, s, c, i, e]
@@ -160,9 +163,33 @@ def run_instance(inst):
     return out
 
 
+_REFS = {}
+
+
+def _ref_task(key):
+    global _fp
+    if _fp is None:
+        _fp = import_flowpaths()
+    cls, g, o, s, c, i, e = json.loads(key)
+    try:
+        ref, _ = run_one(_fp, cls, make_pool(), (g, o, s, c, i, e))
+    except BaseException as ex:      # harness failure: fall back to the in-process reference
+        return key, None
+    return key, ref
+
+
 def main():
     src, dst = sys.argv[1], sys.argv[2]
     insts = read_ndjson(src)
+    # reference results: every distinct construction once, each in a process of its own that has never run a solver
+    # (process-global state of the solver library must not leak from the history into its own reference)
+    import multiprocessing as mp
+    keys = sorted({json.dumps(list(op[2:9])) for inst in insts for op in inst["ops"] if op[0] == "construct"})
+    import drive_purity as _self      # the workers of run_pool import this module by name: fill ITS table (not __main__'s)
+    with mp.get_context("fork").Pool(min(16, os.cpu_count() or 4), maxtasksperchild=1) as pl:
+        for key, ref in pl.imap_unordered(_ref_task, keys, chunksize=1):
+            if ref is not None:
+                _self._REFS[key] = ref
     res = run_pool("drive_purity", "run_instance", insts, limit_s=180)
     bad = [r for r in res if "harness_error" in r]
     if bad:
